@@ -1,7 +1,7 @@
 ----------------------------- MODULE MC_Semiring -----------------------------
 (* R3 for C08: the carriers the numeric properties are decided on really are  *)
 (* commutative star-semirings (closed under the sentinels, 0 x INF = 0).      *)
-EXTENDS Semiring
+EXTENDS Semiring, Binade
 VARIABLE sr
 Points(s) == CASE s = "nat" -> {0, 1, 2, 3, 5, 7, 12, INF}
                [] s = "mp" -> {NINF, -5, -3, -1, 0, 1, 2, 4, INF}
@@ -9,4 +9,14 @@ Points(s) == CASE s = "nat" -> {0, 1, 2, 3, 5, 7, 12, INF}
 Init == sr \in {"nat", "mp", "bool"}
 Next == UNCHANGED sr
 Laws == AllLaws(sr, Points(sr))
+\* R3 for the binade carrier: 2^k is the solution of y = 1 + (1 - 2^-k) y (exact integers, k <= 30)
+StarOm == \A k \in 1..30 : BnStarOmLaw(k)
+\* and the abstract product is associative and commutative wherever it is judged
+F64 == [emin |-> -1074, emax |-> 1023, mant |-> 53]
+BnPts == {BnZ, BnInf(1)} \cup { BnP(1, e) : e \in {-1074, -600, -1, 0, 1, 52, 600, 1023} }
+BnMulLaws == \A a, b, c \in BnPts :
+   /\ BnMulReal(F64, a, b) = BnMulReal(F64, b, a)
+   /\ LET ab == BnMulReal(F64, a, b) bc == BnMulReal(F64, b, c) IN
+        (ab.k # "unjudged" /\ bc.k # "unjudged") =>
+           LET l == BnMulReal(F64, ab, c) r == BnMulReal(F64, a, bc) IN (l.k # "unjudged" /\ r.k # "unjudged") => l = r
 =============================================================================
